@@ -104,7 +104,7 @@ JUDGES = {"tx": judge_tx}
 
 def shards(tier, seed):
     T = tier == "thorough"
-    return [{"name": "tx-%d" % i, "count": 4000 if T else 250, "big": i < 4} for i in range(16)]
+    return [{"name": "tx-%d" % i, "count": 8000 if T else 800, "big": i < 4} for i in range(16)]
 
 
 def make_case(rng, tx, cls="random"):
